@@ -378,10 +378,17 @@ fn c04_sparse(rng: &mut Rng, thorough: bool, out: &mut Sink, slot: &mut usize) {
                 toks.push(t);
             }
         }
-        let vocab: Vocab = toks.iter().enumerate().map(|(i, t)| Token { id: 20 + i as u32 * 2, bytes: t.as_bytes().to_vec() }).collect();
-        let scores: Scores = toks.iter().map(|_| if v % 4 == 2 { -(rng.range(0, 3) as f32) - (rng.range(0, 4) as f32) / 1024.0 } else if v % 2 == 0 { -(rng.range(0, 3) as f32) } else { -(rng.range(1, 4000) as f32) / 256.0 }).collect();
+        let mut vocab: Vocab = toks.iter().enumerate().map(|(i, t)| Token { id: 20 + i as u32 * 2, bytes: t.as_bytes().to_vec() }).collect();
+        // byte fallback for the two-byte character: its bytes as entries of their own (no text is a single such byte)
+        let byte_fallback = v % 3 == 1 && v % 2 == 1;
+        if byte_fallback {
+            vocab.push(Token { id: 900, bytes: vec![0xC3] });
+            vocab.push(Token { id: 901, bytes: vec![0xA9] });
+        }
+        let toks_n = vocab.len();
+        let scores: Scores = (0..toks_n).map(|_| if v % 4 == 2 { -(rng.range(0, 3) as f32) - (rng.range(0, 4) as f32) / 1024.0 } else if v % 2 == 0 { -(rng.range(0, 3) as f32) } else { -(rng.range(1, 4000) as f32) / 256.0 }).collect();
         let mut config = Configuration::default();
-        config.fallback = if v % 5 == 4 { vec![] } else { vec![Fallback::Unknown] };
+        config.fallback = if byte_fallback { vec![Fallback::Bytes, Fallback::Unknown] } else if v % 5 == 4 { vec![] } else { vec![Fallback::Unknown] };
         let specials = vec![SpecialToken { id: 5_000_000, bytes: b"\x01<unk>\x01".to_vec(), kind: SpecialTokenKind::Unknown, ident: None, score: 0.0, extract: false }];
         let def = Definition { meta: Metadata::default(), model: Model::Unigram { vocab, scores }, specials, config };
         let mut lines = Vec::new();
